@@ -371,15 +371,14 @@ fn check_build_for(c: &Case, obs: &mut Obs) -> Result<(), Fail> {
     };
     let got = sd.hash();
     let l = c.views.as_ref().map(language_views_bytes);
-    // Language views apply only to a transaction that runs scripts, i.e. has redeemers. For a
-    // datum-only witness set with non-empty views passed anyway the statement is ambiguous
-    // (ledger: no scripts => empty views => a0); both readings are accepted there.
+    // Language views apply only to a transaction that runs scripts, i.e. has redeemers.
     let mut accepted = vec![];
     if b.r.is_some() {
         accepted.push(formula(b.r.as_deref(), b.d.as_deref(), l.as_deref()));
     } else {
+        // no redeemers => no script runs => empty language views, whatever the caller passed (the ledger's rule; the
+        // real transaction datum-only.tx confirms it against its on-chain hash, see `real-transactions`)
         accepted.push(formula(None, b.d.as_deref(), None));
-        accepted.push(formula(None, b.d.as_deref(), l.as_deref()));
     }
     pv_ensure!(
         accepted.iter().any(|h| h[..] == got[..]),
@@ -496,7 +495,8 @@ fn check_real(t: &RealTx, obs: &mut Obs) -> Result<(), Fail> {
     let r = parts[1].map_get(5).map(|n| n.span(&t.bytes).to_vec());
     let d = parts[1].map_get(4).map(|n| n.span(&t.bytes).to_vec());
     let views = real_views(&t.langs);
-    let l = views.as_ref().map(language_views_bytes);
+    // no redeemers => no script runs => the views are the empty map, whatever cost models are at hand
+    let l = if r.is_some() { views.as_ref().map(language_views_bytes) } else { None };
     let want = formula(r.as_deref(), d.as_deref(), l.as_deref());
     // the reference itself is validated against the chain: the hash in the body was accepted by the ledger
     pv_ensure!(
@@ -549,7 +549,7 @@ pub fn run(s: &Session) {
         body field 11 of the built bytes must equal the formula over the witness-set fields of the built bytes, and be absent when there are neither redeemers nor datums. \
         Non-trivial = at least one language view");
     s.assume("redeemers are generated in the library's canonical form (precondition to_vec(decoded) == written bytes, otherwise the case is discarded): the statement says 'redeemer bytes' without 'as they appeared'");
-    s.assume("for a datum-only witness set with non-empty language views passed anyway, both L = a0 (ledger: no scripts run) and L = views are accepted in build_for; `ScriptData{..}.hash()` with fields set directly is checked literally");
+    s.assume("for a datum-only witness set with non-empty language views passed anyway build_for must use L = a0 (the ledger's rule: no redeemers, no scripts run; datum-only.tx confirms it against its on-chain hash); `ScriptData{..}.hash()` with fields set directly is checked literally");
     s.assume("language view keys are only the three known languages 0,1,2");
     s.assume("validator-script-integrity: the forged transactions hold exactly one Plutus script, so the languages of the transaction are that one language under the ledger's reading (scripts needed) and under pallas' (scripts present)");
     s.assume("txbuilder-script-data-hash: for a built transaction with datums but no redeemers and non-empty language views given anyway, both L = views and L = a0 are accepted (as in build-for); R is the empty map a0 there");
@@ -560,6 +560,10 @@ pub fn run(s: &Session) {
         ("conway2.tx", vec![0]),
         ("hydra-init.tx", vec![1]),
         ("datum-only.tx", vec![]),
+        // the same transaction with cost models handed in anyway: its on-chain hash is H(a0 || datums || a0), so views
+        // passed for a witness set without redeemers must not enter the hash (this settles the reading used below)
+        ("datum-only.tx", vec![0]),
+        ("datum-only.tx", vec![0, 1, 2]),
         ("conway9.tx", vec![0, 1, 2]),
     ]
     .into_iter()
@@ -571,7 +575,7 @@ pub fn run(s: &Session) {
     let n_real = reals.len();
     s.foreach("real-transactions", reals, true, check_real);
     if !s.replaying() {
-        s.health(n_real == 5, "the five real transactions of the repo's test could not all be loaded");
+        s.health(n_real == 7, "the five real transactions of the repo's test could not all be loaded");
     }
 
     // every subset of languages x vector shapes
